@@ -57,6 +57,9 @@ class Init(Contract):
         me.f = {}
         return {'self': me, 'x': x, 'threshold': 0, 'max_rank': INF, 'progress': False, 'string': NONE}
 
+    def domain_extra(self, S):
+        yield 'alloc:self-is-new', S.a['self'].ref >= S.mark0
+
     def _chain(self, x):
         n = zi(x.length)
         all4 = FA(0, n, lambda j: zi(lst_get(x, j).ndim) == 4)
@@ -612,7 +615,7 @@ class Element(Contract):
         return {'TypeError': False, 'ValueError': n != 2 * d, 'IndexError': z3.And(n == 2 * d, z3.Not(inrange))}
 
     def ensures(self, S, res):
-        yield 'returns-scalar', isinstance(res, SArr) and len(res.shape) == 0
+        yield 'returns-scalar', isinstance(res, SNum) or (isinstance(res, SArr) and len(res.shape) == 0)
 
     def canary(self, S, res):
         return z3.BoolVal(False)
@@ -748,6 +751,12 @@ class Concatenate(_Overwritable):
             state.assume(FA(0, n, lambda j: z3.And(lst_get(other, j).buf >= 0, lst_get(other, j).buf < m0, *[s >= 1 for s in lst_get(other, j).shape])))
         return {'self': mk_tt(state, 'self', m0), 'other': other, 'overwrite': inst['overwrite']}
 
+    def domain_extra(self, S):
+        o = S.a['other']
+        if isinstance(o, SList):
+            yield 'other-nonempty', o.len_term() >= 1
+            yield 'other-core-dimensions-positive', FA(0, o.len_term(), lambda j: z3.And(*[x >= 1 for x in lst_get(o, j).shape]))
+
     def _ocores(self, o):
         return o.cores if isinstance(o, STT) else o
 
@@ -804,6 +813,10 @@ class RankTensordot(_Overwritable):
         state.assume(z3.And(mat.shape[0] >= 1, mat.shape[1] >= 1, mat.buf >= 0, mat.buf < m0))
         return {'self': mk_tt(state, 'self', m0), 'matrix': mat, 'mode': {'other': 'middle'}.get(inst['mode'], inst['mode']), 'overwrite': inst['overwrite']}
 
+    def domain_extra(self, S):
+        mat = S.a['matrix']
+        yield 'matrix-dimensions-positive', z3.And(mat.shape[0] >= 1, mat.shape[1] >= 1)
+
     def exceptional(self, S):
         me, mat, mode = S.o['self'], S.a['matrix'], S.a['mode']
         d = zi(me.order)
@@ -855,6 +868,13 @@ class _Ctor(Contract):
             state.assume(z3.And(rk.ref >= 0, rk.ref < m0))
             state.assume(FA(0, d + 1, lambda j: lst_get(rk, j) >= 1))
         return {'row_dims': rd, 'col_dims': cd, 'ranks': rk}
+
+    def domain_extra(self, S):
+        rd, cd, rk = S.a['row_dims'], S.a['col_dims'], S.a.get('ranks', 1)
+        d = zi(rd.len_term())
+        yield 'order>=1', d >= 1
+        yield 'dims>=1', FA(0, d, lambda j: z3.And(lst_get(rd, j) >= 1, lst_get(cd, j) >= 1))
+        yield 'ranks>=1', FA(0, d + 1, lambda j: lst_get(rk, j) >= 1) if isinstance(rk, SList) else zi(rk) >= 1
 
     def _rk(self, S, j):
         rk, d = S.o['ranks'], zi(S.o['row_dims'].length)
@@ -920,6 +940,11 @@ class Eye(Contract):
         state.assume(FA(0, d, lambda j: lst_get(dims, j) >= 1))
         return {'dims': dims}
 
+    def domain_extra(self, S):
+        dims = S.a['dims']
+        yield 'order>=1', dims.len_term() >= 1
+        yield 'dims>=1', FA(0, dims.len_term(), lambda j: lst_get(dims, j) >= 1)
+
     def ensures(self, S, res):
         yield from fresh_result(S, res)
         if not isinstance(res, STT):
@@ -983,6 +1008,13 @@ class _Sweep(Contract):
         mr = SMaxRank('max_rank')
         state.assume(z3.Or(mr.is_inf, mr.val >= 1))
         return mk_tt(state, 'self', m0), thr, mr
+
+    def domain_extra(self, S):
+        mr = S.a.get('max_rank', INF)
+        if isinstance(mr, SMaxRank):
+            yield 'max_rank>=1', z3.Or(mr.is_inf, mr.val >= 1)
+        elif not isinstance(mr, SInf):
+            yield 'max_rank>=1', zi(mr) >= 1
 
     def modifies(self, S):
         me = S.o['self']
@@ -1193,6 +1225,13 @@ class Ortho(Contract):
         state.assume(z3.Or(mr.is_inf, mr.val >= 1))
         return {'self': mk_tt(state, 'self', m0), 'threshold': SNum('threshold', nonneg=z3.BoolVal(True)), 'max_rank': mr}
 
+    def domain_extra(self, S):
+        mr = S.a.get('max_rank', INF)
+        if isinstance(mr, SMaxRank):
+            yield 'max_rank>=1', z3.Or(mr.is_inf, mr.val >= 1)
+        elif not isinstance(mr, SInf):
+            yield 'max_rank>=1', zi(mr) >= 1
+
     def modifies(self, S):
         me = S.o['self']
         d = zi(me.order)
@@ -1212,8 +1251,10 @@ class Ortho(Contract):
         yield 'core-buffers-fresh-or-own-slot', FA(0, d, lambda j: z3.Or(lst_get(me.cores, j).buf >= S.mark0, lst_get(me.cores, j).buf == lst_get(me0.cores, j).buf))
         yield 'cores-1..d-1-right-orthonormal', FA(1, d, lambda j: lst_get(me.cores, j).flags['rorth'])
         yield 'interior-ranks<=max_rank', FA(1, d, lambda j: cap_ok(lst_get(me.ranks, j), mr))
-        ghost = getattr(S.state, 'ghost', {}).get('ortho_left.max_rank_is_inf')
-        yield 'gauge:left-sweep-not-rank-truncated', ghost is not None and ghost
+        if not S.at_call:
+            # ghost clause about the body (which max_rank the left sweep received): proved when TT.ortho itself is verified
+            ghost = getattr(S.state, 'ghost', {}).get('ortho_left.max_rank_is_inf')
+            yield 'gauge:left-sweep-not-rank-truncated', ghost is not None and ghost
 
     def canary(self, S, res):
         me0, me = S.o['self'], S.a['self']
@@ -1249,6 +1290,13 @@ class Svd(Contract):
         state.assume(z3.Or(mr.is_inf, mr.val >= 1))
         return {'self': mk_tt(state, 'self', m0), 'index': fresh('index'), 'threshold': SNum('threshold', nonneg=z3.BoolVal(True)),
                 'max_rank': mr, 'ortho_l': True, 'ortho_r': True, 'overwrite': inst['overwrite']}
+
+    def domain_extra(self, S):
+        mr = S.a.get('max_rank', INF)
+        if isinstance(mr, SMaxRank):
+            yield 'max_rank>=1', z3.Or(mr.is_inf, mr.val >= 1)
+        elif not isinstance(mr, SInf):
+            yield 'max_rank>=1', zi(mr) >= 1
 
     def requires(self, S):
         me = S.a['self']
@@ -1389,7 +1437,7 @@ class Matricize(Contract):
             snap = l.snapshot()
             for (a, b) in ((0, 1), (0, d)):
                 for ax in prod_instance(snap, a, b):
-                    state.assume(ax)
+                    state.assume(ax, model=True)
         return {'self': me}
 
     def requires(self, S):
@@ -1498,6 +1546,11 @@ class Unit(Contract):
         state.assume(FA(0, d, lambda j: lst_get(dims, j) >= 1))
         return {'dims': dims, 'inds': inds}
 
+    def domain_extra(self, S):
+        dims = S.a['dims']
+        yield 'order>=1', dims.len_term() >= 1
+        yield 'dims>=1', FA(0, dims.len_term(), lambda j: lst_get(dims, j) >= 1)
+
     def requires(self, S):
         dims, inds = S.a['dims'], S.a['inds']
         d = zi(dims.length)
@@ -1553,6 +1606,13 @@ class Uniform(Contract):
             rk = mk_int_list(state, 'ranks', d + 1)
             state.assume(z3.And(rk.ref >= 0, rk.ref < m0, FA(0, d + 1, lambda j: lst_get(rk, j) >= 1)))
         return {'row_dims': rd, 'ranks': rk, 'norm': SNum('norm')}
+
+    def domain_extra(self, S):
+        rd, rk = S.a['row_dims'], S.a.get('ranks', 1)
+        d = zi(rd.len_term())
+        yield 'order>=1', d >= 1
+        yield 'dims>=1', FA(0, d, lambda j: lst_get(rd, j) >= 1)
+        yield 'ranks>=1', FA(0, d + 1, lambda j: lst_get(rk, j) >= 1) if isinstance(rk, SList) else zi(rk) >= 1
 
     def ensures(self, S, res):
         yield from fresh_result(S, res)
@@ -1628,6 +1688,12 @@ class Tensordot(Contract):
                 if a is not b:
                     state.assume(z3.Distinct(a.cores.ref, b.cores.ref, a.ranks.ref, b.ranks.ref, a.row_dims.ref, b.row_dims.ref, a.col_dims.ref, b.col_dims.ref))
         return {'self': me, 'other': other, 'num_axes': fresh('num_axes'), 'mode': inst['mode'], 'overwrite': inst['overwrite']}
+
+    def domain_extra(self, S):
+        a, b = S.a['self'], S.a['other']
+        # the contract covers two distinct operands (a.tensordot(a, ...) is outside it)
+        yield 'distinct-operands', z3.And(a.ref != b.ref, z3.Distinct(a.cores.ref, b.cores.ref, a.ranks.ref, b.ranks.ref, a.row_dims.ref, b.row_dims.ref,
+                                                                      a.col_dims.ref, b.col_dims.ref))
 
     def requires(self, S):
         # derived from the code: cores[first_idx] is read before any check, so at least one axis is contracted
